@@ -133,6 +133,8 @@ type sim struct {
 	heldTx     map[string]int
 }
 
+var debugPark = os.Getenv("VERIF_D_DEBUGPARK") != ""
+
 type glag struct{}
 
 func (glag) Size() int                  { return 41 }
@@ -475,7 +477,9 @@ func (s *sim) loop() {
 			s.violate("C13/no-termination", "height %d, last fault at %d, budget %d blocks: %s", h, lf, cfg.Liveness, strings.Join(st, " "))
 			return
 		}
-		// ---- parked calls
+		// ---- parked calls (members started or crashed above must have reached
+		// their next blocking point first)
+		synctest.Wait()
 		parked := s.c.gate.Take()
 		if len(parked) > 0 {
 			// a slow member: its parked calls are passed over (while others have
@@ -493,18 +497,48 @@ func (s *sim) loop() {
 					s.fired("rpc.slow")
 				}
 			}
+			if debugPark {
+				var l []string
+				for _, q := range parked {
+					l = append(l, fmt.Sprintf("m%d.%d.%s", q.member, q.inc, q.name))
+				}
+				s.logf("d=%d parked=%v", s.decisions, l)
+			}
 			p := parked[s.pick(len(parked))]
 			if !p.write && s.inWindow() && cfg.RPCErrPct > 0 && s.rng.IntN(100) < cfg.RPCErrPct {
 				s.inject("rpc.error")
 				s.fired("rpc.error")
 				s.m[p.member].faulted = true
 				s.logf("d=%d h=%d rpcfail m%d %s", s.decisions, h, p.member, p.name)
+				for _, q := range parked {
+					if q != p && !q.write && q.member == p.member && q.inc == p.inc && q.name == p.name {
+						s.c.gate.Fail(q) // the whole tie group, see below
+					}
+				}
 				s.c.gate.Fail(p)
 				s.lastFaultH = h
 				continue
 			}
-			s.logf("d=%d h=%d call m%d %s", s.decisions, h, p.member, p.name)
-			s.c.gate.Release(p)
+			// reads with the same name parked by one incarnation (several of its
+			// goroutines woken at the same simulated instant, e.g. pollers) are
+			// released together: which of them arrived first is the Go
+			// scheduler's choice, not this simulator's, and must not matter
+			group := []*parkedCall{p}
+			if !p.write {
+				for _, q := range parked {
+					if q != p && !q.write && q.member == p.member && q.inc == p.inc && q.name == p.name {
+						group = append(group, q)
+					}
+				}
+			}
+			if len(group) > 1 {
+				s.logf("d=%d h=%d call m%d %s x%d", s.decisions, h, p.member, p.name, len(group))
+			} else {
+				s.logf("d=%d h=%d call m%d %s", s.decisions, h, p.member, p.name)
+			}
+			for _, q := range group {
+				s.c.gate.Release(q)
+			}
 			continue
 		}
 		// ---- environment: deliver one queued event
